@@ -165,6 +165,9 @@ func chunkWrite(r *rand.Rand, w io.Writer, b []byte) error {
 
 type hashed interface{ Hash() plumbing.Hash }
 
+// diagnosis only: lets the self-test show that the single-goroutine overlap phase detects pool corruption on its own
+var noEPDoubleClose = os.Getenv("VERIF_C01_NO_EP_DOUBLE_CLOSE") != ""
+
 var doubleCloses atomic.Int64 // second Close calls issued by writeVia (added to the evidence counter at the end)
 
 // entry points that write a loose object into a filesystem storage.
@@ -215,7 +218,7 @@ func writeVia(ep string, st *filesystem.Storage, r *rand.Rand, cs *objCase) (plu
 		if err := w.Close(); err != nil {
 			return plumbing.ZeroHash, err
 		}
-		if cs.idx%4 == 1 {
+		if cs.idx%4 == 1 && !noEPDoubleClose {
 			_ = w.Close() // a deferred Close after the explicit one must be harmless
 			doubleCloses.Add(1)
 		}
@@ -240,7 +243,7 @@ func writeVia(ep string, st *filesystem.Storage, r *rand.Rand, cs *objCase) (plu
 		if err := w.Close(); err != nil {
 			return plumbing.ZeroHash, err
 		}
-		if cs.idx%4 == 2 {
+		if cs.idx%4 == 2 && !noEPDoubleClose {
 			_ = w.Close()
 			doubleCloses.Add(1)
 		}
